@@ -5,14 +5,14 @@
 //! in-process reference aggregator that applies the epoch-offset rule with its own constants and
 //! verifies every published signature (see `refagg.rs`, `world.rs`, `sys.rs`).
 
-use std::collections::BTreeMap;
+use std::collections::{BTreeMap, HashSet};
 use std::sync::Mutex;
 
 use mc_core::explore::{Explorer, standard_edits};
 use mc_core::{Ctx, Report, Tier};
 use serde_json::json;
 
-use crate::sys::{Ev, nominal, replay};
+use crate::sys::{Ev, Tail, nominal, replay};
 
 pub fn alphabet() -> Vec<Ev> {
     use Ev::*;
@@ -62,33 +62,59 @@ pub fn run(ctx: &Ctx) -> ! {
         "model_checking",
         "explicit-state exploration by replay of the real signer node (state machine, runner, epoch service, single signer, certifier, \
          SQLite stores) against an in-process reference aggregator: every history is replayed on a fresh node, every publication is \
-         judged by the reference when it happens, the publication log is checked at the end and a fault-free tail of three epochs must \
-         make the signer sign again; a history is non-trivial when the signer published at least one signature; distinct = distinct \
+         judged by the reference when it happens, the publication log is checked at the end and a fault-free tail of three epochs (run once per \
+         canonical state) must make the signer sign again; a history is non-trivial when the signer published at least one signature; distinct = distinct \
          canonical states reached by such histories",
     );
     let stats: Mutex<BTreeMap<&'static str, u64>> = Mutex::new(BTreeMap::new());
-    let run = |h: &[Ev]| {
-        let o = replay(&scratch, &fixture, h, true);
+    let claimed: Mutex<HashSet<u64>> = Mutex::new(HashSet::new());
+    let add_stats = |o: &crate::sys::Outcome| {
         let mut s = stats.lock().unwrap();
-        for (k, v) in o.stats {
-            *s.entry(k).or_insert(0) += v;
+        for (k, v) in &o.stats {
+            *s.entry(*k).or_insert(0) += *v;
         }
+    };
+    let run = |h: &[Ev]| {
+        let o = replay(&scratch, &fixture, h, Tail::OncePerState(&claimed));
+        add_stats(&o);
         o.result
+    };
+    // differential: same acknowledged publications as the uninterrupted schedule
+    let differential = |h: &[Ev], against: &std::collections::BTreeSet<String>, base: &[Ev], rep: &mut Report| -> crate::sys::Outcome {
+        let o = replay(&scratch, &fixture, h, Tail::Never);
+        if &o.published != against {
+            let missing: Vec<&String> = against.difference(&o.published).collect();
+            let extra: Vec<&String> = o.published.difference(against).collect();
+            rep.violation(
+                if h.contains(&Ev::Restart) { "C20/restart-changes-published-set" } else { "C20/unacknowledged-publication-not-repeated" },
+                format!(
+                    "with {:?} inserted into the nominal schedule (which has enough spare cycles after every chain event to absorb them) the acknowledged publications differ from the uninterrupted run: missing {missing:?}, additional {extra:?}",
+                    h.iter().enumerate().filter(|(_, e)| matches!(e, Ev::Restart | Ev::PublishFails)).collect::<Vec<_>>()
+                ),
+                json!({"history": h, "differential_against": base, "missing": missing, "additional": extra}),
+            );
+        }
+        o
     };
 
     if let Some(path) = &ctx.replay {
         let v = mc_core::load_replay(path);
         let h: Vec<Ev> = serde_json::from_value(v["history"].clone()).expect("history in replay file");
-        let r = run(&h);
+        let r = if v.get("differential_against").is_some() {
+            let base: Vec<Ev> = serde_json::from_value(v["differential_against"].clone()).expect("base history in replay file");
+            let b = replay(&scratch, &fixture, &base, Tail::Never);
+            differential(&h, &b.published, &base, &mut rep).result
+        } else {
+            replay(&scratch, &fixture, &h, Tail::Always).result
+        };
         eprintln!("replayed {} events: outcome {}", h.len(), r.outcome);
-        for v in &r.violations {
+        if let Some(v) = r.violations.first().or(rep.violations.first()) {
             eprintln!("  {}: {}", v.key, v.what);
             if let Some(log) = v.replay["log"].as_array() {
                 for l in log {
                     eprintln!("      {}", l.as_str().unwrap_or(""));
                 }
             }
-            break;
         }
         rep.eval();
         for v in r.violations {
@@ -104,12 +130,12 @@ pub fn run(ctx: &Ctx) -> ! {
     }
 
     if std::env::var("MC_NOMINAL_ONLY").is_ok() {
-        for slack in [0usize, 2] {
-            let nom = nominal(slack);
+        for (epochs, slack) in [(5usize, 0usize), (4, 0), (5, 2)] {
+            let nom = nominal(epochs, slack);
             let t = std::time::Instant::now();
-            let o = replay(&scratch, &fixture, &nom, true);
+            let o = replay(&scratch, &fixture, &nom, Tail::Always);
             eprintln!(
-                "nominal(slack {slack}): {} events, outcome {}, {} violations, {:.3}s",
+                "nominal({epochs} epochs, slack {slack}): {} events, outcome {}, {} violations, {:.3}s",
                 nom.len(),
                 o.result.outcome,
                 o.result.violations.len(),
@@ -117,25 +143,17 @@ pub fn run(ctx: &Ctx) -> ! {
             );
             for v in &o.result.violations {
                 eprintln!("  {}: {}", v.key, v.what);
+                if std::env::var("MC_LOG").is_ok() {
+                    eprintln!("{:#}", v.replay["log"]);
+                }
             }
             eprintln!("published: {:?}", o.published);
             eprintln!("stats: {:?}", o.stats);
-            if slack == 0 {
+            if slack == 0 && epochs == 5 {
                 eprintln!("{}", o.result.canon);
-                let o2 = replay(&scratch, &fixture, &nom, false);
-                if let Some(v) = o2.result.violations.first() {
-                    eprintln!("{:#}", v.replay["log"]);
-                }
                 let t = std::time::Instant::now();
-                let o3 = replay(&scratch, &fixture, &[], true);
+                let o3 = replay(&scratch, &fixture, &[], Tail::Always);
                 eprintln!("empty history with tail: {:.3}s {}", t.elapsed().as_secs_f64(), o3.result.outcome);
-                if std::env::var("MC_LOG").is_ok() {
-                    let mut w = o3.result.violations;
-                    w.extend(o.result.violations.clone());
-                    for v in w.iter().take(1) {
-                        eprintln!("{:#}", v.replay["log"]);
-                    }
-                }
             }
         }
         let _ = std::fs::remove_dir_all(&scratch);
@@ -147,27 +165,36 @@ pub fn run(ctx: &Ctx) -> ! {
 
     // (a) all histories up to a depth over the full alphabet, from the prepared states
     let alpha = alphabet();
-    let pre = prefixes();
+    let mut pre = prefixes();
+    if quick {
+        pre.truncate(3);
+    }
     let depth = ctx.tier.pick(3, 4);
+    let t_part = std::time::Instant::now();
     let st = ex.bfs(&pre, &alpha, depth, &mut rep);
+    eprintln!("[C20] bfs: {} histories, {} states, {:.1}s", st.transitions, st.states, t_part.elapsed().as_secs_f64());
     rep.extra(
         "bfs",
         json!({"prepared_states": pre.len(), "alphabet": alpha.len(), "depth_completed": st.depth_completed, "histories": st.transitions, "states": st.states}),
     );
 
-    // (b) deviation ball around the nominal five-epoch schedule
-    let nom = nominal(0);
+    // (b) deviation ball around the nominal schedule (four epochs quick, five thorough): drop,
+    // duplicate, swap, or insert any event of the alphabet anywhere
+    let nom = nominal(ctx.tier.pick(4, 5), 0);
     let edits = |h: &[Ev]| standard_edits(h, &alpha, 0);
+    let t_part = std::time::Instant::now();
     let st = ex.ball(&nom, &edits, 1, &mut rep);
+    eprintln!("[C20] ball(1): {} histories, {} states, {:.1}s", st.transitions, st.states, t_part.elapsed().as_secs_f64());
     rep.extra(
         "ball_nominal",
-        json!({"nominal_len": nom.len(), "deviation_alphabet": alpha.len(), "bound_completed": st.depth_completed, "histories": st.transitions, "states": st.states}),
+        json!({"nominal_epochs": ctx.tier.pick(4, 5), "nominal_len": nom.len(), "deviation_alphabet": alpha.len(), "bound_completed": st.depth_completed, "histories": st.transitions, "states": st.states}),
     );
     if !quick {
-        // two deviations, from the first signing epoch on, with the fault events only
+        // two injected faults, from the first signing epoch on, around the four-epoch schedule
         use Ev::*;
-        let dev2 = vec![Epoch, AggDown, StaleOn, RoundClosed, PublishFails, RegisterAckLost, Restart];
-        let from = nom.iter().enumerate().filter(|(_, e)| **e == Epoch).nth(1).map(|x| x.0).unwrap();
+        let nom4 = nominal(4, 0);
+        let dev2 = vec![Epoch, AggDown, AggUp, RoundClosed, RoundOpen, PublishFails, Restart];
+        let from = nom4.iter().enumerate().filter(|(_, e)| **e == Epoch).nth(1).map(|x| x.0).unwrap();
         let edits2 = |h: &[Ev]| {
             let mut v = vec![];
             // insertions only (drops / swaps of the nominal are in the one-deviation ball)
@@ -180,71 +207,82 @@ pub fn run(ctx: &Ctx) -> ! {
             }
             v
         };
-        let st = ex.ball(&nom, &edits2, 2, &mut rep);
+        let t_part = std::time::Instant::now();
+        let st = ex.ball(&nom4, &edits2, 2, &mut rep);
+        eprintln!("[C20] ball(2 faults): {} histories, {} states, {:.1}s", st.transitions, st.states, t_part.elapsed().as_secs_f64());
         rep.extra(
             "ball_nominal_two_faults",
-            json!({"nominal_len": nom.len(), "from_event": from, "deviation_alphabet": dev2.len(), "bound_completed": st.depth_completed, "histories": st.transitions, "states": st.states}),
+            json!({"nominal_epochs": 4, "nominal_len": nom4.len(), "from_event": from, "deviation_alphabet": dev2.len(), "bound_completed": st.depth_completed, "histories": st.transitions, "states": st.states}),
         );
     }
 
-    // (c) restart differential: a restart costs the signer at most two cycles (Init -> Unregistered ->
-    // registered), so on the nominal schedule with two (four) spare cycles after every group of
-    // cycles, one (two) restarts inserted anywhere must leave the set of acknowledged publications
-    // exactly as in the uninterrupted run
-    let n_restarts = ctx.tier.pick(1usize, 2);
-    let slack_nom = nominal(2 * n_restarts);
-    let base = replay(&scratch, &fixture, &slack_nom, false);
-    for v in &base.result.violations {
-        rep.push_violation(v.clone());
+    // (c) differential against the uninterrupted run. A restart costs the signer at most two cycles
+    // (Init -> Unregistered -> registered), a lost acknowledgement one cycle (the beacon is published
+    // again). So on the nominal schedule with two spare cycles per injected fault after every group of
+    // cycles, restarts / lost acknowledgements inserted anywhere must leave the set of acknowledged
+    // publications exactly as in the uninterrupted run: nothing signed twice, nothing lost.
+    // quick: one fault (Restart or PublishFails) at every position of the five-epoch schedule;
+    // thorough: additionally every pair (Restart, Restart) and (PublishFails, Restart) of positions
+    // of the four-epoch schedule.
+    let mut n_diff = 0u64;
+    let mut diff_states = HashSet::new();
+    let mut diff_extra = vec![];
+    let mut plans: Vec<(usize, usize, Vec<Vec<Ev>>)> = vec![(5, 1, vec![vec![Ev::Restart], vec![Ev::PublishFails]])];
+    if !quick {
+        plans.push((4, 2, vec![vec![Ev::Restart, Ev::Restart], vec![Ev::PublishFails, Ev::Restart]]));
     }
-    let mut jobs: Vec<Vec<usize>> = (0..=slack_nom.len()).map(|p| vec![p]).collect();
-    if n_restarts == 2 {
-        for p in 0..=slack_nom.len() {
-            for q in p..=slack_nom.len() {
-                jobs.push(vec![p, q]);
+    for (epochs, n_faults, combos) in plans {
+        let slack_nom = nominal(epochs, 2 * n_faults);
+        let base = replay(&scratch, &fixture, &slack_nom, Tail::Never);
+        for v in &base.result.violations {
+            rep.push_violation(v.clone());
+        }
+        let mut jobs: Vec<Vec<Ev>> = vec![];
+        for combo in &combos {
+            if combo.len() == 1 {
+                for p in 0..=slack_nom.len() {
+                    let mut h = slack_nom.clone();
+                    h.insert(p, combo[0]);
+                    jobs.push(h);
+                }
+            } else {
+                for p in 0..=slack_nom.len() {
+                    for q in p..=slack_nom.len() {
+                        let mut h = slack_nom.clone();
+                        h.insert(q, combo[1]);
+                        h.insert(p, combo[0]);
+                        jobs.push(h);
+                    }
+                }
             }
         }
-    }
-    let res = mc_core::par_map(&jobs, ctx.threads(), |_, pos| {
-        let mut h = slack_nom.clone();
-        for p in pos.iter().rev() {
-            h.insert(*p, Ev::Restart);
+        let res = mc_core::par_map(&jobs, ctx.threads(), |_, h| {
+            let mut part = Report::new("model_checking", "");
+            let o = differential(h, &base.published, &slack_nom, &mut part);
+            add_stats(&o);
+            (o, part)
+        });
+        eprintln!("[C20] differential ({epochs} epochs, {n_faults} fault(s)): {} runs, {:.1}s so far", jobs.len(), ctx.elapsed_s());
+        for (o, part) in res {
+            n_diff += 1;
+            rep.eval();
+            rep.outcome(&format!("differential:{}", if o.published == base.published { "same-published-set" } else { "DIFFERENT" }));
+            rep.nontrivial(&o.result.canon);
+            diff_states.insert(o.result.canon.clone());
+            for v in o.result.violations {
+                rep.push_violation(v);
+            }
+            for v in part.violations {
+                rep.push_violation(v);
+            }
         }
-        let o = replay(&scratch, &fixture, &h, false);
-        (h, o)
-    });
-    let mut diff_states = std::collections::HashSet::new();
-    let mut n_diff = 0u64;
-    for (pos, (h, o)) in jobs.iter().zip(res) {
-        n_diff += 1;
-        rep.eval();
-        rep.outcome(&format!("restart-differential:{}", if o.published == base.published { "same-published-set" } else { "DIFFERENT" }));
-        rep.nontrivial(&o.result.canon);
-        diff_states.insert(o.result.canon.clone());
-        for v in o.result.violations {
-            rep.push_violation(v);
-        }
-        if o.published != base.published {
-            let missing: Vec<&String> = base.published.difference(&o.published).collect();
-            let extra: Vec<&String> = o.published.difference(&base.published).collect();
-            rep.violation(
-                "C20/restart-changes-published-set",
-                format!(
-                    "restart(s) inserted at position(s) {pos:?} of the nominal schedule with {} spare cycles per group: acknowledged publications differ from the uninterrupted run; missing {missing:?}, additional {extra:?}",
-                    2 * n_restarts
-                ),
-                json!({"history": h, "differential_against": slack_nom, "missing": missing, "additional": extra}),
-            );
-        }
+        diff_extra.push(json!({"nominal_epochs": epochs, "nominal_len": slack_nom.len(), "spare_cycles_per_group": 2 * n_faults, "faults_per_run": n_faults,
+            "fault_combinations": combos, "runs": jobs.len(), "publications_in_uninterrupted_run": base.published.len()}));
     }
     rep.states = Some(rep.states.unwrap_or(0) + diff_states.len() as u64);
     rep.transitions = Some(rep.transitions.unwrap_or(0) + n_diff);
     rep.traces_validated = Some(rep.traces_validated.unwrap_or(0) + n_diff);
-    rep.extra(
-        "restart_differential",
-        json!({"nominal_len": slack_nom.len(), "spare_cycles_per_group": 2 * n_restarts, "restarts_per_run": n_restarts, "runs": n_diff,
-               "publications_in_uninterrupted_run": base.published.len()}),
-    );
+    rep.extra("differential", json!(diff_extra));
 
     for (k, v) in stats.lock().unwrap().iter() {
         rep.extra(k, json!(v));
@@ -253,7 +291,7 @@ pub fn run(ctx: &Ctx) -> ! {
     rep.assume("the Cardano node (chain observer, immutable file observer, block scanner, immutable digester) is replaced by the repository's own test doubles; the aggregator by the harness reference aggregator called in process (no HTTP, no message adapters)");
     rep.assume("reference rule: keys registered during epoch e, the stake distribution the chain showed during e and the parameters handed out during e are in force in e+2; a repeated registration in the same epoch replaces the earlier one");
     rep.assume("events are atomic with respect to a state-machine cycle: no fault or chain event happens in the middle of a cycle");
-    rep.assume("the node draws its keys from the OS random generator: signatures differ between runs, canonical states record only which keys exist and whether signer and aggregator agree on them; with m>=100 and phi_f>=0.65 a registered signer wins at least one lottery except with negligible probability");
+    rep.assume("the node draws its keys from the OS random generator: signatures differ between runs, canonical states record only which keys exist and whether signer and aggregator agree on them; the signer under test holds ~3/4 of the stake and the reference parameters are m>=30, phi_f>=0.8, so it wins at least one lottery except with probability < 1e-15 per signature");
     rep.assume("only acknowledged publications count for 'at most once'; a further publication after an unacknowledged one is legitimate");
     rep.finish(ctx)
 }
